@@ -169,8 +169,6 @@ func hipIgnoresGlobalOffset(p []int, c class) string {
 	return ""
 }
 
-func at(a arch.Type) arch.Type { return a }
-
 func pow2(n int) bool { return n > 0 && n&(n-1) == 0 }
 
 var both = []string{"gcn3", "cdna3"}
